@@ -256,6 +256,14 @@ func verifyDelayPeriodPassed(ctx sdk.Context, store sdk.KVStore, proofHeight exp
 	}
 	currentTimestamp := uint64(ctx.BlockTime().UnixNano())
 	validTime := processedTime + delayPeriod
+	if validTime < processedTime {
+		// processedTime + delayPeriod does not fit 64 bits: the delay period cannot have passed
+		return sdkerrors.Wrapf(
+			ErrDelayPeriodNotPassed,
+			"cannot verify packet: delay period %d after processed time %d is out of range",
+			delayPeriod, processedTime,
+		)
+	}
 	// NOTE: delay period is inclusive, so if currentTimestamp is validTime, then we return no error
 	if validTime > currentTimestamp {
 		return sdkerrors.Wrapf(
